@@ -4,6 +4,7 @@ import RtenVerif.Model.InPlace
 import RtenVerif.Model.BinaryDispatch
 import RtenVerif.Model.ReduceDispatch
 import RtenVerif.Model.BlockedCopy
+import RtenVerif.Model.Im2Col
 import RtenVerif.Generated.RegistryOps
 
 namespace RtenVerif.Driver.C14
@@ -133,6 +134,21 @@ def handleCp (ws : List String) : String :=
       showTens (tensOf t.view (fun i => ((t.store.getD i 0 : Nat) : Int)))
   | none => "bad-request"
 
+open RtenVerif.Im2Col in
+/-- `im2col c= h= w= k= pads= str= dil= ist= steps=`: the offset tables. -/
+def handleIm2col (ws : List String) : String :=
+  let nat (k : String) := (field k ws).bind String.toNat?
+  let nats (k : String) := (field k ws).bind (parseNatList ",")
+  match nat "c", nat "h", nat "w", nats "k", nats "pads", nats "str", nats "dil", nats "ist", nats "steps" with
+  | some c, some h, some w, some [kh, kw], some [pt, pl, pb, pr], some [sh, sw], some [dy, dx],
+      some [sc, sth, stw], some [cs, rs] =>
+    match buildIm2col ⟨c, h, w, kh, kw, pt, pl, pb, pr, sh, sw, dy, dx, sc, sth, stw⟩ cs rs with
+    | none => "panic"
+    | some t =>
+      let j (l : List Int) := if l.isEmpty then "-" else showInts "," l
+      s!"rows={t.nRows} cols={t.nCols} rc={j t.rowChan} ry={j t.rowY} rx={j t.rowX} cy={j t.colY} cx={j t.colX} my={t.maxY} mx={t.maxX}"
+  | _, _, _, _, _, _, _, _, _ => "bad-request"
+
 def handleCov (ws : List String) : String :=
   let names := match ws with
     | [w] => w.splitOn ","
@@ -164,6 +180,7 @@ def handle (line : String) : String :=
   | "tip" :: ws => handleTip ws
   | "red" :: ws => handleRed ws
   | "cp" :: ws => handleCp ws
+  | "im2col" :: ws => handleIm2col ws
   | "cov" :: ws => handleCov ws
   | _ => "skip"
 
